@@ -1,5 +1,6 @@
 /-
-  Lemmas about Spec.Glob.G and the correctness invariant of Model.Glob.loop (C14).
+  Lemmas about Spec.Glob.G and the correctness invariant of Model.Glob.loop (C14) — for every
+  pattern and every subject (the wildcard test comes first in the fixed code).
 -/
 import Vgw.Model.Glob
 import Vgw.Spec.Glob
@@ -127,8 +128,8 @@ def accept (p : Bytes) : Option Nat → Bool
 
 /-- The current attempt is dead when neither the literal/`?` test nor the `*` test fires. -/
 theorem current_false (p s : Bytes) (pi si : Nat) (hs : si < s.length)
-    (hp : ¬(pi < p.length ∧ (p[pi]? = some Model.Glob.qmark ∨ p[pi]? = some s[si])))
-    (hq : ¬(pi < p.length ∧ p[pi]? = some Model.Glob.star)) :
+    (hq : ¬(pi < p.length ∧ p[pi]? = some Model.Glob.star))
+    (hp : ¬(pi < p.length ∧ (p[pi]? = some Model.Glob.qmark ∨ p[pi]? = some s[si]))) :
     G (p.drop pi) (s.drop si) = false := by
   rw [drop_of_lt s si hs]
   by_cases hlt : pi < p.length
@@ -144,34 +145,11 @@ theorem current_false (p s : Bytes) (pi si : Nat) (hs : si < s.length)
     simp [h2, h3]
   · rw [List.drop_eq_nil_of_le (by omega), G_nil]; rfl
 
-theorem loop_correct (p s : Bytes) (hstar : star ∉ s) (pi si : Nat) (st : Option Nat) (mi : Nat)
+theorem loop_correct (p s : Bytes) (pi si : Nat) (st : Option Nat) (mi : Nat)
     (h : mi ≤ si) (inv : Inv p s pi si st mi) :
     accept p (Model.Glob.loop p s pi si st mi h) = true ↔ G p s = true := by
   fun_induction Model.Glob.loop p s pi si st mi h with
-  | case1 pi si st mi h hs hp ih =>
-    -- literal / `?`
-    apply ih
-    obtain ⟨hlt, hc⟩ := hp
-    have hcx : ∃ c, p[pi]? = some c ∧ c ≠ star ∧ (c = qmark ∨ c = s[si]) := by
-      rcases hc with hc | hc
-      · exact ⟨qmark, by rw [hc, qmark_eq], qmark_ne_star, Or.inl rfl⟩
-      · refine ⟨s[si], hc, ?_, Or.inr rfl⟩
-        intro e; apply hstar; rw [← e]; exact List.getElem_mem hs
-    obtain ⟨c, hpc, hcs, hcm⟩ := hcx
-    have hd := drop_of_getElem? p pi c hpc
-    refine ⟨by omega, by omega, ?_, ?_⟩
-    · intro k hk
-      obtain ⟨hkl, seg, hseg, hns, hlen⟩ := inv.seg k hk
-      refine ⟨hkl, seg ++ [c], ?_, ?_, ?_⟩
-      · rw [hseg, hd]; simp
-      · simp only [List.mem_append, List.mem_singleton, not_or]
-        exact ⟨hns, fun e => hcs e.symm⟩
-      · simp; omega
-    · rw [inv.sem, hd, drop_of_lt s si hs, G_lit_cons _ _ _ _ hcs]
-      have : (decide (c = qmark) || decide (c = s[si])) = true := by
-        rcases hcm with e | e <;> simp [e]
-      rw [this, Bool.true_and]
-  | case2 pi si st mi h hs hp hq ih =>
+  | case1 pi si st mi h hs hq ih =>
     -- new star
     apply ih
     obtain ⟨hlt, hc⟩ := hq
@@ -208,10 +186,35 @@ theorem loop_correct (p s : Bytes) (hstar : star ∉ s) (pi si : Nat) (st : Opti
           rw [List.drop_drop]
           have : si + (j - si) = j := by omega
           rw [this]; exact hg
-  | case3 pi si mi h hs hp hq k _ ih =>
+  | case2 pi si st mi h hs hq hp ih =>
+    -- literal / `?`; the pattern byte is not `*` because the wildcard test came first
+    apply ih
+    obtain ⟨hlt, hc⟩ := hp
+    have hpc : p[pi]? = some p[pi] := List.getElem?_eq_getElem hlt
+    have hcs : p[pi] ≠ star := by
+      intro e; apply hq; exact ⟨hlt, by rw [hpc, e, star_eq]⟩
+    have hcm : p[pi] = qmark ∨ p[pi] = s[si] := by
+      rw [hpc] at hc
+      rcases hc with e | e
+      · left; simp only [Option.some.injEq] at e; rw [e, qmark_eq]
+      · right; simpa using e
+    have hd := drop_of_getElem? p pi _ hpc
+    refine ⟨by omega, by omega, ?_, ?_⟩
+    · intro k hk
+      obtain ⟨hkl, seg, hseg, hns, hlen⟩ := inv.seg k hk
+      refine ⟨hkl, seg ++ [p[pi]], ?_, ?_, ?_⟩
+      · rw [hseg, hd]; simp
+      · simp only [List.mem_append, List.mem_singleton, not_or]
+        exact ⟨hns, fun e => hcs e.symm⟩
+      · simp; omega
+    · rw [inv.sem, hd, drop_of_lt s si hs, G_lit_cons _ _ _ _ hcs]
+      have : (decide (p[pi] = qmark) || decide (p[pi] = s[si])) = true := by
+        rcases hcm with e | e <;> simp [e]
+      rw [this, Bool.true_and]
+  | case3 pi si mi h hs hq hp k _ ih =>
     -- backtrack to the last star
     apply ih
-    have hcur := current_false p s pi si hs hp hq
+    have hcur := current_false p s pi si hs hq hp
     obtain ⟨hkl, seg, hseg, hns, hlen⟩ := inv.seg k rfl
     refine ⟨by omega, by omega, ?_, ?_⟩
     · intro k' hk'
@@ -227,9 +230,9 @@ theorem loop_correct (p s : Bytes) (hstar : star ∉ s) (pi si : Nat) (st : Opti
       · rintro (hg | ⟨j, hj1, hj2, hg⟩)
         · exact ⟨mi + 1, by omega, by omega, hg⟩
         · exact ⟨j, by omega, hj2, hg⟩
-  | case4 pi si mi h hs hp hq _ =>
+  | case4 pi si mi h hs hq hp _ =>
     -- no star to fall back to: `return false`
-    have hcur := current_false p s pi si hs hp hq
+    have hcur := current_false p s pi si hs hq hp
     have := inv.sem
     rw [hcur] at this
     simp only [Rest, Bool.false_eq_true, false_or] at this
@@ -252,73 +255,6 @@ theorem loop_correct (p s : Bytes) (hstar : star ∉ s) (pi si : Nat) (st : Opti
     rw [skipStars_iff p pi inv.hpi, hsi, List.drop_length]
 
 theorem inv_init (p s : Bytes) : Inv p s 0 0 none 0 :=
-  ⟨by omega, by omega, (by intro k hk; cases hk), (by simp [Rest])⟩
-
-/-! ### soundness for every subject (also those containing `*`) -/
-
-structure SInv (p s : Bytes) (pi si : Nat) (st : Option Nat) (mi : Nat) : Prop where
-  hsi : si ≤ s.length
-  hpi : pi ≤ p.length
-  hst : ∀ k, st = some k → k < p.length
-  sem : (G (p.drop pi) (s.drop si) = true ∨ Rest p s st mi) → G p s = true
-
-theorem loop_sound (p s : Bytes) (pi si : Nat) (st : Option Nat) (mi : Nat)
-    (h : mi ≤ si) (inv : SInv p s pi si st mi) :
-    accept p (Model.Glob.loop p s pi si st mi h) = true → G p s = true := by
-  fun_induction Model.Glob.loop p s pi si st mi h with
-  | case1 pi si st mi h hs hp ih =>
-    apply ih
-    obtain ⟨hlt, hc⟩ := hp
-    have hpc : p[pi]? = some p[pi] := List.getElem?_eq_getElem hlt
-    have hd := drop_of_getElem? p pi _ hpc
-    refine ⟨by omega, by omega, inv.hst, ?_⟩
-    rintro (hg | hr)
-    · apply inv.sem; left
-      rw [hd, drop_of_lt s si hs]
-      by_cases hcs : p[pi] = star
-      · rw [hcs, G_star_cons, Bool.or_eq_true]; right
-        exact (G_star_iff _ _).2 ⟨0, by simp, by simpa using hg⟩
-      · rw [G_lit_cons _ _ _ _ hcs, hg, Bool.and_true]
-        rw [hpc] at hc
-        rcases hc with e | e
-        · simp only [Option.some.injEq] at e; simp [e, qmark_eq]
-        · simp only [Option.some.injEq] at e; simp [e]
-    · exact inv.sem (Or.inr hr)
-  | case2 pi si st mi h hs hp hq ih =>
-    apply ih
-    obtain ⟨hlt, hc⟩ := hq
-    rw [star_eq] at hc
-    have hd := drop_of_getElem? p pi star hc
-    refine ⟨inv.hsi, by omega, ?_, ?_⟩
-    · intro k hk; cases hk; exact hlt
-    · intro hh
-      apply inv.sem; left
-      rw [hd, G_star_iff]
-      rcases hh with hg | ⟨j, hj1, hj2, hg⟩
-      · exact ⟨0, by simp, by simpa using hg⟩
-      · refine ⟨j - si, by rw [List.length_drop]; omega, ?_⟩
-        rw [List.drop_drop]
-        have : si + (j - si) = j := by omega
-        rw [this]; exact hg
-  | case3 pi si mi h hs hp hq k _ ih =>
-    apply ih
-    have hkl := inv.hst k rfl
-    refine ⟨by omega, by omega, inv.hst, ?_⟩
-    intro hh
-    apply inv.sem; right
-    rcases hh with hg | ⟨j, hj1, hj2, hg⟩
-    · exact ⟨mi + 1, by omega, by omega, hg⟩
-    · exact ⟨j, by omega, hj2, hg⟩
-  | case4 pi si mi h hs hp hq _ => intro hh; simp [accept] at hh
-  | case5 pi si st mi h hs =>
-    intro hh
-    have hsi : si = s.length := by have := inv.hsi; omega
-    apply inv.sem; left
-    simp only [accept] at hh
-    rw [skipStars_iff p pi inv.hpi] at hh
-    rw [hsi, List.drop_length]; exact hh
-
-theorem sinv_init (p s : Bytes) : SInv p s 0 0 none 0 :=
   ⟨by omega, by omega, (by intro k hk; cases hk), (by simp [Rest])⟩
 
 end Vgw.Lemmas.Glob
